@@ -251,6 +251,52 @@ def r07i(rep, prog):
     return n
 
 
+def r07j(rep, prog, only_files=None):
+    """no library function recurses along the graph: a function that calls itself (directly or through others) from inside a loop over out-edges /
+    adjacent vertices has a stack depth proportional to the length of a path, and overflows the stack on long paths, rings, ladders"""
+    n = 0
+    fns = [f for f in prog.functions if not f.implicit and f.body is not None and (f.file.startswith(env.REPO + '/include') or f.file.startswith(env.WITNESS + '/positive'))]
+    byid = {f.fref_id: f for f in fns}
+    calls = {f.fref_id: (ex.callees_of(f) & set(byid)) for f in fns}
+
+    def reaches_self(fid):
+        seen, work = set(), list(calls.get(fid, ()))
+        while work:
+            x = work.pop()
+            if x == fid:
+                return True
+            if x in seen:
+                continue
+            seen.add(x)
+            work.extend(calls.get(x, ()))
+        return False
+    for f in fns:
+        if only_files and not any(x in f.file for x in only_files):
+            continue
+        if not reaches_self(f.fref_id):
+            continue
+        n += 1
+        what = 'library functions do not recurse along the graph (stack depth independent of the input size)'
+        rec_calls = [d for d in f.walk() if d.k in ex.CALL_KINDS and d.j.get('callee') is not None and
+                     (d.j['callee'] == f.fref_id or (d.j['callee'] in byid and f.fref_id in calls.get(d.j['callee'], ()) or d.j['callee'] in byid and reaches_self(d.j['callee'])))]
+        in_graph_loop = False
+        for d in rec_calls:
+            lp = d.enclosing('ForStmt', 'WhileStmt', 'CXXForRangeStmt', 'DoStmt')
+            while lp is not None:
+                if any(x.k == 'CallExpr' and x.callee and x.callee['g'] in ('boost::out_edges', 'boost::adjacent_vertices', 'boost::in_edges') for x in lp.walk()) or \
+                        any(x.k == 'DeclRefExpr' and x.decl is not None and ex.unique_def(f, x.decl_id) is not None and
+                            any(y.k == 'CallExpr' and y.callee and y.callee['g'] in ('boost::out_edges', 'boost::adjacent_vertices') for y in [ex.unique_def(f, x.decl_id).strip_all()])
+                            for x in lp.walk() if not (lp.body is not None and lp.body.is_ancestor_of(x))):
+                    in_graph_loop = True
+                lp = lp.enclosing('ForStmt', 'WhileStmt', 'CXXForRangeStmt', 'DoStmt')
+        if in_graph_loop:
+            rep.violation('R07j', f.body, f, what, '%s calls itself for every neighbour it visits: the recursion is as deep as the longest path explored, a path / ring / ladder '
+                          'with some 10^5 vertices overflows the stack' % f.g, key='R07j|%s|recursion' % f.g)
+        else:
+            rep.undecided('R07j', f.body, f, what, '%s is recursive; its depth is not bounded by a recognised argument' % f.g)
+    return n
+
+
 def is_temporary(arg):
     """the argument expression materialises a temporary that is bound to the reference parameter"""
     n = arg
@@ -504,6 +550,7 @@ def run(rep, tier):
     rep.rule('R10s', 'R07c: %s conversions cannot overflow', floor=1)
     rep.rule('R10b', 'R07c: the optional trailing weight is initialised before sscanf (no read of an indeterminate double on unweighted lines)', floor=1)
     rep.rule('R07d', 'no dereference of end()', floor=0)
+    rep.rule('R07j', 'no recursion along the graph in library functions', floor=0)
     rep.rule('R06d', 'the scratch maps of the closing-path search are private to each search (no stale labels, no sharing between TBB tasks)', floor=2)
     rep.rule('R07i', 'the minimum of a frontier / heap is only read when it is non-empty', floor=1)
     rep.rule('R07h', 'sizes computed with unsigned subtraction do not wrap for the empty graph', floor=0)
@@ -526,6 +573,7 @@ def run(rep, tier):
         r07g(rep, prog)
         r07h(rep, prog)
         r07i(rep, prog)
+        r07j(rep, prog)
         # "releases what it allocated": the control object allocated by the concurrency knob (shared with C20)
         from . import c20
         sub20 = type(rep)(rep.prop, rep.tier)
@@ -551,6 +599,9 @@ def run(rep, tier):
     pp = env.extract([pos], 'full')[pos]
     prep = type(rep)(rep.prop, rep.tier)
     r07b(prep, pp)
+    prep6 = type(rep)(rep.prop, rep.tier)
+    r07j(prep6, pp)
+    rep.positive('R07j', 'witness/positive/c07_shapes.cc', any(i.status == 'violation' for i in prep6.instances.values()))
     prep5 = type(rep)(rep.prop, rep.tier)
     r07h(prep5, pp)
     rep.positive('R07h', 'witness/positive/c07_shapes.cc', any(i.status == 'violation' for i in prep5.instances.values()))
